@@ -622,6 +622,21 @@ def check_defaults(run: lib.Run, audit: dict, violations: list, scale: int = 1):
         for variant in ({}, {"algorithm": None}, {"algorithm": ""}):
             lint_issues.append(sorted(str(i.get("code")) for i in rlint.analyze_policy({**variant, "rules": rules})))
             lint_explicit.append(explicit)
+    # the same through analyze_policyset: a child that names no algorithm is analysed with deny-overrides whatever the algorithm of the
+    # enclosing set (absent, null, each of the three) — the evaluators give such a child deny-overrides, the linter's overlap analysis
+    # must speak about the same semantics; next to an explicit child, position and siblings varied
+    def _codes(issues):
+        return sorted((str(i.get("code")), i.get("policy_index")) for i in issues)
+    for rules in ([_p, _d], [_d, _p], [_d, _q, _p], [_q, _d]):
+        for set_algo in ({}, {"algorithm": None}, {"algorithm": "deny-overrides"}, {"algorithm": "permit-overrides"}, {"algorithm": "first-applicable"},
+                         {"algorithm": "Permit-Overrides"}):
+            for variant in ({}, {"algorithm": None}, {"algorithm": ""}):
+                for before in ([], [{"algorithm": "first-applicable", "rules": [_q]}]):
+                    doc = {**set_algo, "policies": before + [{**variant, "rules": rules}]}
+                    ref = {**set_algo, "policies": before + [{"algorithm": "deny-overrides", "rules": rules}]}
+                    lint_issues.append(_codes(rlint.analyze_policyset(doc)))
+                    lint_explicit.append(_codes(rlint.analyze_policyset(ref)))
+                    run.evaluations += 1
     for name, dec in paths.items():
         run.count(f"default:{name}:{dec}")
         run.evaluations += 1
@@ -632,7 +647,7 @@ def check_defaults(run: lib.Run, audit: dict, violations: list, scale: int = 1):
                 path = run.write_replay("default", {"what": f"no algorithm named: an applicable deny does not win on the path '{name}'", "case": {**w, "paths": paths}})
                 violations.append((path, True))
     if lint_issues != lint_explicit:
-        path = run.write_replay("default_lint", {"what": "linter analyses an algorithm-less policy differently from an explicit deny-overrides one",
+        path = run.write_replay("default_lint", {"what": "linter analyses an algorithm-less policy (stand-alone or as a child of a set) differently from an explicit deny-overrides one",
                                                  "case": {"default": lint_issues, "explicit": lint_explicit}})
         violations.append((path, True))
     # random algorithm-less documents on the engine vs the model under uniform defaults
